@@ -1,7 +1,7 @@
 //! C01: the real runtime (`EventLoops` with n loop threads) and concurrent submitter threads.
 //! body: `<loops> <threads> <per_thread> <prio-mode> <work>`  prio-mode: none | same | mixed ; work: ret | yield | sleep (a hooked 1-3 ms nanosleep) | panic-some
-//! out : `once=<n> lost=<n> dup=<n> unfinished=<n>` (tasks that ran exactly once / never within the budget / more than once;
-//!       tasks that should have returned but had not when the budget ended)
+//! out : `once=<n> lost=<n> dup=<n> unfinished=<n> early=<n>` (tasks that ran exactly once / never within the budget / more than once;
+//!       tasks that should have returned but had not when the budget ended; hooked sleeps that returned before their time)
 use crate::rng::Rng;
 use open_coroutine_core::config::Config;
 use open_coroutine_core::net::EventLoops;
@@ -19,6 +19,7 @@ pub fn gen(r: &mut Rng, thorough: bool) -> String {
 }
 
 static FIN: AtomicU32 = AtomicU32::new(0);
+static EARLY: AtomicU32 = AtomicU32::new(0);
 
 pub fn exec(body: &str, emit: &mut dyn FnMut(&str)) {
     std::panic::set_hook(Box::new(|_| {}));
@@ -52,8 +53,12 @@ pub fn exec(body: &str, emit: &mut dyn FnMut(&str)) {
                         "yield" => { if let Some(s) = open_coroutine_core::coroutine::suspender::Suspender::<(), ()>::current() { s.suspend(); } }
                         "sleep" => {
                             // a hooked sleep of 1-3 ms: the task parks in its loop's timer and may be resumed by another loop
-                            let ts = libc::timespec { tv_sec: 0, tv_nsec: 1_000_000 * (1 + (idx % 3) as i64) };
+                            let ms = 1 + (idx % 3) as u64;
+                            let ts = libc::timespec { tv_sec: 0, tv_nsec: 1_000_000 * ms as i64 };
+                            let t = Instant::now();
                             _ = open_coroutine_core::syscall::nanosleep(None, &ts, std::ptr::null_mut());
+                            // its own wake-up time, nobody else's: never back before the requested time
+                            if t.elapsed() < Duration::from_millis(ms) { _ = EARLY.fetch_add(1, Ordering::SeqCst); }
                         }
                         "panic-some" => { if idx % 7 == 3 { panic!("boom") } }
                         _ => {}
@@ -75,5 +80,5 @@ pub fn exec(body: &str, emit: &mut dyn FnMut(&str)) {
     std::thread::sleep(Duration::from_millis(60));
     let (mut once, mut lost, mut dup) = (0, 0, 0);
     for c in counts.iter() { match c.load(Ordering::SeqCst) { 0 => lost += 1, 1 => once += 1, _ => dup += 1 } }
-    emit(&format!("once={once} lost={lost} dup={dup} unfinished={}", expect_fin.saturating_sub(FIN.load(Ordering::SeqCst))));
+    emit(&format!("once={once} lost={lost} dup={dup} unfinished={} early={}", expect_fin.saturating_sub(FIN.load(Ordering::SeqCst)), EARLY.load(Ordering::SeqCst)));
 }
